@@ -45,7 +45,7 @@ PROPS = {
         "rule": "systems containing explicit-angle requests with angles from a dense set around 0, +-90, 180, 360 (and 270, -180, 45, ...) in degrees and radians, at one and at several priority levels, solvable and unsolvable; planted systems with and without deliberately collapsed guesses (zero-length lines, coincident points, zero-radius arcs); every warning in Ok and Err results is audited against the request it names",
     },
     "C16": {
-        "modules": ["Ezpz.Properties.C16"],
+        "modules": ["Ezpz.Properties.C16", "Ezpz.Proofs.FmtCorrect"],
         "suites": [
             {"suite": "text", "quick": (1200, 600), "thorough": (10000, 4000)},
         ],
@@ -55,7 +55,7 @@ PROPS = {
         "partial": ["the theorems are about the hand-written model of main.rs (Ezpz/Model/Cli.lean, CliMain.lean); the tie to the real program is the comparison of exit status and standard output of the release binary built from /repo with the model's rendering, by path and by stdin, on every generated text",
                     "cli_never_panics assumes the LU oracle does not panic (LinSolveTotal, as in C06); panics inside faer, clap argument handling, --image-path (visualize::save_png) and the two wall-clock performance lines are outside the model",
                     "the benchmark loop's unwrap is safe given determinism of the numeric kernels (C10): resolve_deterministic is about the model, a pure function"],
-        "assumptions": ["fmt2 ({:.2} formatting) is an exact decimal rounding implemented in the driver and compared against the real binary's output"],
+        "assumptions": ["fmt2 ({:.2} formatting) is in the model (Ezpz/Model/Fmt.lean) and proved to be round-half-even of the exact binary value to two decimals (FmtCorrect.lean: fmt2Core_nearest, fmt2Core_ties_even, fmt2Core_unique, fmt2_digits); that Rust's {:.2} does the same is checked against the real binary's output"],
         "rule": "problem texts: the repository's own test cases, generated valid texts (points, circles, arcs, all instruction forms), unsolvable and contradictory ones, and mutated / malformed ones; each is run through the release `ezpz` binary by path and by stdin, with and without --show-points; exit status, absence of panic and every stdout line are compared with the model's rendering of the library outcome computed in-process",
     },
     "C17": {
@@ -199,12 +199,12 @@ PROPS = {
         "assumptions": [],
     },
     "C08": {
-        "modules": ["Ezpz.Properties.C08", "Ezpz.Proofs.Label", "Ezpz.Proofs.Render"],
+        "modules": ["Ezpz.Properties.C08", "Ezpz.Proofs.Label", "Ezpz.Proofs.Render", "Ezpz.Proofs.NumberCorrect"],
         "suites": [
             {"suite": "text", "quick": (1600, 800), "thorough": (40000, 10000)},
         ],
         "oracles": [],
-        "partial": ["the grammar (winnow combinators, f64::from_str) is modelled by hand and tied to parser.rs by the exact differential comparison; about the model it is proved that parsing the canonical rendering of any well-formed problem (all 23 instruction forms, declarations, both guess kinds; integer or plain decimal literals) returns that problem (parse_render, parse_render_dec, parse_render_instr); literals with exponents, nan/inf and sqrt(...), the pair form 'l = (x, y)' and non-canonical spacing are outside the round-trip theorem (covered by corr-text only); nothing is proved about the bits of the decimal-to-binary64 conversion (checked against Python's float() in the model's own tests and against Rust in corr-text)",
+        "partial": ["the grammar (winnow combinators, f64::from_str) is modelled by hand and tied to parser.rs by the exact differential comparison; about the model it is proved that parsing the canonical rendering of any well-formed problem (all 23 instruction forms, declarations, both guess kinds; integer or plain decimal literals) returns that problem (parse_render, parse_render_dec, parse_render_instr); literals with exponents, nan/inf and sqrt(...), the pair form 'l = (x, y)' and non-canonical spacing are outside the round-trip theorem (covered by corr-text only); the model's decimal-to-binary64 conversion is proved correctly rounded (NumberCorrect.lean: ratToBits_nearest, ratToBits_ties_even, ratToBits_exact, ratToBits_overflow, both cut-offs of decToFloat sound); that Rust's f64::from_str is correctly rounded too is checked by corr-text, not proved",
                     "the labelled outcome is proved to report, for every declared point / circle / arc in declaration order, the final values at exactly the ids the layout specification assigns - the same ids the lowered constraints use (labelOutcome_spec, labelled_*_is_constraint_variable) - and the initial guesses round-trip through it (label_roundtrip)"],
         "assumptions": ["VARS_PER_POINT/CIRCLE/ARC are the values extracted from geometry_variables.rs on this run"],
         "rule": "texts are generated from the grammar (0..6 points, 0..3 circles, 0..3 arcs in any interleaving, 1..20 instructions over all 24 syntactic forms, several number syntaxes, optional whitespace) plus a mutation stream; each is compared exactly (parse dump, constraints, guesses, labelled outcome) between the real front-end and the Lean model, and against hand-built constraints",
